@@ -17,6 +17,7 @@ import OllamaVerif.Proofs.GgufSafe
 import OllamaVerif.Proofs.GgufCreate
 import OllamaVerif.Proofs.GgufSteps
 import OllamaVerif.Proofs.GgufWeight
+import OllamaVerif.Proofs.GgufApi
 
 namespace OllamaVerif.C10
 open OllamaVerif OllamaVerif.Gguf
@@ -181,6 +182,33 @@ theorem witness_pinned_accessor_panics :
 /-- … the working tree's accessors take the default instead: one model layer -/
 example : (createUpload wArchType (some budget)).map (fun r => r.toOption.map (fun ls => ls.map (fun l => (l.size, l.media))))
     = some (some [(60, 0)]) := by decide
+
+/-! ### the other handlers that decode an installed (pulled, hence untrusted) model file: Model/GgufApi.lean -/
+
+/-- **`POST /api/create {"from": m}`** (`server/model.go parseFromModel` decodes every model layer of the installed model,
+    `createModel` reads the metadata through the typed accessors): for every list of blobs, no panic site and no
+    allocation above the budget — the request ends in success or an error answer -/
+theorem create_from_safe_tree (blobs : List Bytes) (B : Nat) (hB : ∀ b ∈ blobs, 16 * b.length ≤ B) :
+    Safe (createFrom blobs (some B) Guards.tree) :=
+  createFrom_safe blobs B hB
+
+/-- **`POST /api/show`** (`Model.Capabilities`: decode with the default array limit, failure tolerated, architecture-
+    prefixed look-ups; `getModelData`: decode without array limit when verbose): safe on every blob -/
+theorem show_safe_tree (blob : Bytes) (verbose : Bool) (B : Nat) (hB : 16 * blob.length ≤ B) :
+    Safe (showModel blob verbose (some B) Guards.tree) :=
+  showModel_safe blob verbose B hB
+
+/-- upstream's unchecked accessor takes the handler down on the 60-byte file of `witness_pinned_accessor_panics` in
+    both handlers as well -/
+theorem witness_pinned_from_and_show_panic :
+    (match createFrom [wArchType] (some budget) { Guards.all with accessorType := false } with
+      | .error e => some e | .ok _ => none) = some (.panic "interface-conversion") ∧
+    (match showModel wArchType true (some budget) { Guards.all with accessorType := false } with
+      | .error e => some e | .ok _ => none) = some (.panic "interface-conversion") := by decide
+
+/-- non-vacuity: the working tree answers both requests on that file, and rejects a truncated one with an error -/
+example : (createFrom [wArchType] (some budget)).isOk = true ∧ (showModel wArchType true (some budget)).isOk = true ∧
+    (showModel (wArchType.take 40) true (some budget)).isOk = false := by decide
 
 /-- a decode that starts at 0 and ends at 0 keeps the loop where it is: no fuel is ever enough -/
 theorem loop_stuck (bs : Bytes) (budget : Option Nat) (g : Guards) (maxSeek : Nat) (d : Decoded) (m : Nat) (hpos : 0 < bs.length)
